@@ -270,7 +270,7 @@ func genCase(t *rapid.T) Case {
 	c.Entry = rapid.SampledFrom([]string{"reader", "chan"}).Draw(t, "entry")
 	c.Noise = rapid.Bool().Draw(t, "noise")
 	genuine, _ := trace(c.N, c.Clauses)
-	src := rapid.SampledFrom([]string{"genuine", "genuine", "lit-dropped", "lit-flipped", "line-deleted", "lines-swapped", "random", "consequence-not-rup", "non-consequence"}).Draw(t, "source")
+	src := rapid.SampledFrom([]string{"genuine", "genuine", "lit-repeated", "lit-repeated", "lit-dropped", "lit-flipped", "line-deleted", "lines-swapped", "random", "consequence-not-rup", "non-consequence"}).Draw(t, "source")
 	if len(genuine) == 0 && src != "random" && src != "consequence-not-rup" && src != "non-consequence" {
 		src = "random"
 	}
@@ -289,6 +289,18 @@ func genCase(t *rapid.T) Case {
 		return idx[gen.Uniform(t, 0, len(idx)-1, "pick")]
 	}
 	switch src {
+	case "lit-repeated":
+		// a genuine trace in which some lines write one of their literals several times ("3 3 0", "1 -2 1 0"): as a
+		// clause it is the same line, and what follows still depends on it
+		for i := range cert {
+			if len(cert[i]) > 0 && gen.Chance(t, 1, 2, "repeat") {
+				l := cert[i][gen.Uniform(t, 0, len(cert[i])-1, "which")]
+				for k, times := 0, rapid.IntRange(1, 2).Draw(t, "times"); k < times; k++ {
+					at := gen.Uniform(t, 0, len(cert[i]), "at")
+					cert[i] = append(append(append([]int{}, cert[i][:at]...), l), cert[i][at:]...)
+				}
+			}
+		}
 	case "lit-dropped":
 		if i := pick(func(l []int) bool { return len(l) > 0 }); i >= 0 {
 			j := gen.Uniform(t, 0, len(cert[i])-1, "j")
@@ -338,6 +350,123 @@ func genCase(t *rapid.T) Case {
 	return c
 }
 
+// BigCase: a DIMACS text of more than 128 KB whose clauses are each written over several lines, read by
+// explain.ParseCNF. The formula holds an implication chain that unit propagation refutes, spread among thousands
+// of padding clauses over the same 10 variables.
+type BigCase struct {
+	N        int     `json:"n"`
+	Clauses  [][]int `json:"clauses"`
+	Breaks   []int   `json:"breaks"`    // cyclic pattern: after how many literals a line break is inserted
+	CRLF     bool    `json:"crlf"`      // line ends
+	ChainLen int     `json:"chain_len"` // length of the refuted chain
+}
+
+func (c BigCase) text() string {
+	nl := "\n"
+	if c.CRLF {
+		nl = "\r\n"
+	}
+	var sb strings.Builder
+	fmt.Fprintf(&sb, "p cnf %d %d%s", c.N, len(c.Clauses), nl)
+	k := 0
+	for _, cl := range c.Clauses {
+		sinceBreak := 0
+		for _, l := range cl {
+			fmt.Fprintf(&sb, "%d", l)
+			sinceBreak++
+			if sinceBreak >= c.Breaks[k%len(c.Breaks)] {
+				sb.WriteString(nl)
+				sinceBreak = 0
+				k++
+			} else {
+				sb.WriteString(" ")
+			}
+		}
+		sb.WriteString("0" + nl)
+	}
+	return sb.String()
+}
+
+func genBig(t *rapid.T) BigCase {
+	c := BigCase{N: 10, CRLF: rapid.Bool().Draw(t, "crlf"), ChainLen: gen.Uniform(t, 3, 10, "chain")}
+	perm := rapid.Permutation([]int{1, 2, 3, 4, 5, 6, 7, 8, 9, 10}).Draw(t, "perm")
+	lit := func(i int) int {
+		if i%2 == 0 {
+			return perm[i]
+		}
+		return -perm[i]
+	}
+	// chain: l0, (l0 -> l1 v l1) ... written as clauses of 3 literals (one repeated) so that each spans lines
+	chain := [][]int{{lit(0), lit(0), lit(0)}}
+	for i := 1; i < c.ChainLen; i++ {
+		chain = append(chain, []int{-lit(i - 1), lit(i), lit(i)})
+	}
+	chain = append(chain, []int{-lit(c.ChainLen - 1), -lit(c.ChainLen - 1), -lit(0)})
+	m := gen.Uniform(t, 8300, 9500, "padding")
+	at := map[int]int{}
+	for i := range chain {
+		at[gen.Uniform(t, 0, m-1, "chainAt")] = i
+	}
+	used := map[int]bool{}
+	for i := 0; i < m; i++ {
+		if j, ok := at[i]; ok && !used[j] {
+			used[j] = true
+			c.Clauses = append(c.Clauses, chain[j])
+			continue
+		}
+		c.Clauses = append(c.Clauses, gen.DistinctLits(t, c.N, 3, "pad"))
+	}
+	for j := range chain {
+		if !used[j] {
+			c.Clauses = append(c.Clauses, chain[j])
+		}
+	}
+	for i, k := 0, rapid.IntRange(1, 4).Draw(t, "pattern"); i < k; i++ {
+		c.Breaks = append(c.Breaks, rapid.IntRange(1, 2).Draw(t, "break"))
+	}
+	return c
+}
+
+func checkBig(c BigCase, o *vf.Obs) error {
+	txt := c.text()
+	o.ClassIf(len(txt) > 128*1024, "text>128KB")
+	o.Nontrivial()
+	pb, err := explain.ParseCNF(strings.NewReader(txt))
+	if err != nil {
+		return fmt.Errorf("explain.ParseCNF rejects a well-formed text of %d bytes: %v", len(txt), err)
+	}
+	if pb.NbVars != c.N || len(pb.Clauses) != len(c.Clauses) {
+		return fmt.Errorf("parsed problem has %d variables and %d clauses, the text %d and %d", pb.NbVars, len(pb.Clauses), c.N, len(c.Clauses))
+	}
+	for i, cl := range pb.Clauses {
+		if !reflect.DeepEqual(cl, c.Clauses[i]) {
+			return fmt.Errorf("clause %d of the text is %v, parsed as %v (text of %d bytes, clauses written over several lines)", i, c.Clauses[i], cl, len(txt))
+		}
+	}
+	// the bare empty clause is derivable by unit propagation: both entry points must accept it
+	r := oracle.NewRUP(c.N, c.Clauses)
+	if !r.Check(nil) {
+		return fmt.Errorf("%w: harness: the chain is not refuted by unit propagation", vf.ErrInconclusive)
+	}
+	for _, entry := range []string{"reader", "chan"} {
+		valid, err := runChecker(Case{Cert: [][]int{{}}, Entry: entry}, pb)
+		if err != nil || !valid {
+			return fmt.Errorf("the empty clause is derivable by unit propagation from the problem, but the checker (%s) answers %v, %v", entry, valid, err)
+		}
+	}
+	sub, err := pb.UnsatSubset()
+	if err != nil {
+		return fmt.Errorf("UnsatSubset of an unsatisfiable problem failed: %v", err)
+	}
+	if !oracle.SubMultiset(sub.Clauses, c.Clauses) {
+		return fmt.Errorf("UnsatSubset: result is not a sub-multiset of the input")
+	}
+	if oracle.CNFSat(c.N, sub.Clauses) {
+		return fmt.Errorf("UnsatSubset: the returned subset %v is satisfiable", sub.Clauses)
+	}
+	return nil
+}
+
 func genSubset(t *rapid.T) SubsetCase {
 	var c SubsetCase
 	c.N, c.Clauses = genFormula(t)
@@ -355,6 +484,11 @@ func init() {
 		vf.Sub[SubsetCase]{Name: "unsat-subset", Quick: 8000, Thorough: 100000, Gen: genSubset, Check: checkSubset, Floor: 0.15,
 			Rule: "CNF n<=8 with duplicate literals and repeated clauses; UnsatSubset: unsat => sub-multiset of the input that is unsat by truth table, sat => error, caller's problem unchanged; non-trivial = unsat input and a strictly smaller subset"},
 	)
+}
+
+func init() {
+	vf.Register(vf.Sub[BigCase]{Name: "big-wrapped-file", Quick: 5, Thorough: 40, Gen: genBig, Check: checkBig, Floor: 0.9,
+		Rule: "a DIMACS text of 130..200 KB read by explain.ParseCNF: 8300..9500 three-literal clauses over 10 variables, every clause written over two or three lines (LF or CRLF), among them an implication chain of 3..10 steps (each clause repeating a literal) that unit propagation refutes; asserted: the parsed clause list equals the text's, the bare empty clause is accepted by both checker entry points, UnsatSubset returns an unsatisfiable sub-multiset"})
 }
 
 func TestMain(m *testing.M)   { vf.Main(m, "C08") }
